@@ -32,7 +32,10 @@ EXPLANATION = (
     "renderer only names those functions, this set is what defines them; (W3) the generator never writes to a schema's "
     "annotations (`schemars::schema::Metadata`, where `default` lives): they are only read; (D7) the default validators look for repeated "
     "elements (a `uniqueItems` default) among all pairs: a neighbour-only comparison (`windows(2)`) is complete only on sorted "
-    "data, and JSON values have no order."
+    "data, and JSON values have no order; (D8) where a nullable type array `[T, null]` is rewritten into Option<T>, the schema "
+    "handed to the conversion of T carries the annotations with a `null` default removed (and only a null one): `default: null` "
+    "is the Option's default, and T's range check would reject it — schemars emits exactly this for `Option<u32>` with "
+    "`#[serde(default)]`."
 )
 ASSUMPTIONS = ["serde_json::Value::as_* / is_* semantics as documented", "the rendered literal's numeric value is not decided (see DESIGN.md)"]
 
@@ -149,6 +152,7 @@ def run(facts, rep, tier):
     run_w2(facts, rep)
     run_w3(facts, rep)
     run_d7(facts, rep)
+    run_d8(facts, rep)
     val, ren = find_mirror(c)
     if not rep.floor("C06.D1", "default validator / renderer pair", (1 if val else 0) + (1 if ren else 0), 2):
         return
@@ -598,6 +602,16 @@ def run_w3(facts, rep):
                            "%s rewrites a schema annotation before conversion: a `default` (or title/description) that the schema states is no longer what the converters and the default validator see, so an invalid default can pass unreported or a valid one be lost" % w, par.get("sp") or n.get("sp"))
                 else:
                     reads += 1
+    # a rebuilt copy of the annotations with `default` set is a write too, unless it is the guarded null-removal of D8
+    for h in c.user_fns():
+        for n, anc in walk(h["body"]):
+            if n.get("k") == "struct" and n["path"].endswith("schema::Metadata") and "rest" not in n and any(f_[0] == "default" for f_ in n["fields"]):
+                guarded = any(a.get("k") is None and "pat" in a and a.get("guard") is not None and re.fullmatch(r"\(\S*\.default Eq Some\(Value::Null\)\)|\(Some\(Value::Null\) Eq \S*\.default\)", src(a["guard"])) for a in anc)
+                val = dict((f_[0], src(f_[1])) for f_ in n["fields"]).get("default")
+                if not (guarded and val == "None"):
+                    writes += 1
+                    rep.ob("C06.W3", "annotations-read-only:%s#%d" % (h["fn"], writes), False,
+                           "a copy of a schema's annotations is rebuilt with `default: %s` outside the one allowed case (removing a `null` default for the inner type of an Option): the default the schema states is not the one that is validated" % val, n.get("sp"))
     rep.ob("C06.W3", "annotations-read-only", writes == 0, "no write to a Metadata field (%d reads)" % reads if writes == 0 else "%d writes to Metadata fields" % writes, nontrivial=False)
     rep.floor("C06.W3", "reads of Metadata fields (the matcher sees them)", reads, 8)
 
@@ -617,3 +631,30 @@ def run_d7(facts, rep):
     # the matcher is alive: the struct-member converter's duplicate-field test is a (sorted) neighbour test
     alive = sum(len(neighbour_tests(h)) for h in c.user_fns())
     rep.info("D7: %d neighbour (windows) tests seen in the crate; none may sit unsorted in a default validator" % alive)
+
+
+def run_d8(facts, rep):
+    from lib import Canon, binding_let
+    c = facts.impl
+    sites = []
+    for h in c.user_fns():
+        for n, _ in walk(h["body"]):
+            if n.get("k") in ("call", "mcall") and (n.get("fn") or "").endswith("TypeSpace::convert_option"):
+                for a in n.get("args", []):
+                    bl = binding_let(h, a)
+                    if bl is None:
+                        continue
+                    lit = [x for x, _ in walk(bl.get("init") or {}) if x.get("k") == "struct" and x["path"].endswith("SchemaObject") and "rest" not in x and any(f_[0] == "instance_type" for f_ in x["fields"])]
+                    if lit:
+                        sites.append((h, n, lit[0]))
+    if not rep.floor("C06.D8", "rewrites of a nullable type array into Option<T>", len(sites), 1):
+        return
+    for h, n, lit in sites:
+        cn = Canon(c, h, 2)
+        md = dict((f_[0], f_[1]) for f_ in lit["fields"]).get("metadata")
+        t = cn.r(md) if md is not None else ""
+        ok = md is not None and re.search(r"Some\(_\) if \(\S*\.default Eq Some\(Value::Null\)\) => Some\(Box<T>::new\(Metadata\{default: None\}\)\) \| _ => ", t) is not None
+        rep.ob("C06.D8", "null-default-stays-with-the-option:%s" % h["fn"], ok,
+               "the inner schema's annotations are the outer ones with a `null` default (and nothing else) removed" if ok else
+               ("the inner type is converted with the Option's own annotations: a `default: null` reaches the inner integer/number conversion, whose range check rejects it (`value does not conform to the given schema`) although the default is valid for the nullable type" if md is None else
+                "the inner schema's annotations are rewritten as `%s`, which is not 'remove the default iff it is null'" % t[:160]), lit.get("sp") or n.get("sp"))
